@@ -106,6 +106,14 @@ macro_rules! function {
                 args: &[Value],
             ) -> Result<Value, Error>
             {
+                let expected = [$(stringify!($aname)),+].len();
+                if args.len() != expected {
+                    bail!("{} requires {} argument(s), {} provided",
+                        stringify!($name),
+                        expected,
+                        args.len()
+                    )
+                }
                 $crate::args!(args, ctx=$ctx, opts=$arg_opts, $($aname),+);
                 $body
             }
@@ -394,7 +402,8 @@ impl Callable for IsMemberOf {
     fn signature(&self, ctx: ScriptContextRef, args: &[Value]) -> Result<Type, Error> {
         let mut targs: Vec<Type> = Vec::with_capacity(args.len());
         for x in args {
-            targs.push(x.type_of(ctx.clone())?);
+            // the operands are compared by value, see call()
+            targs.push(x.real_type_of(ctx.clone())?);
         }
         args!(targs, a, ary);
         let ary = if let Type::Array(ary) = ary {
